@@ -450,7 +450,13 @@ impl CdnUrlBuilder {
         }
 
         let hash_lower = hash.to_lowercase();
-        Ok((hash_lower[0..2].to_string(), hash_lower[2..4].to_string()))
+        // A hash that is not ASCII has no character boundary at bytes 2 and 4
+        match (hash_lower.get(0..2), hash_lower.get(2..4)) {
+            (Some(dir1), Some(dir2)) => Ok((dir1.to_string(), dir2.to_string())),
+            _ => Err(StreamingError::InvalidRange {
+                reason: format!("Hash is not hex, no directory extraction: {hash}"),
+            }),
+        }
     }
 
     /// Update URL builder from bootstrap configuration
